@@ -434,7 +434,22 @@ def run(ctx, prog, res):
                 ok = re.fullmatch(r"p2|p1\.0|\*?p1\.\d", sh) is not None
                 r6.check(ok, {"fn": fx.id.split("::")[-1], "reads": nm.split("::")[-1] + "(date)"}, "C15.R6:%s" % nm.split("::")[-1],
                          "first_after takes the %s of %s instead of the caller's date" % (nm.split("::")[-1], sh), lib.where_of(fx, t))
-    r6.floor(4)
+    # a member found as (month, day) becomes a date in one step: component-wise setters go through an
+    # intermediate date that may not exist (day 31 moved into a 30-day month gives None)
+    SETTER = re.compile(r"Datelike>?::with_(month0?|day0?|ordinal0?|year)$|NaiveDate::with_(month0?|day0?|ordinal0?|year)$")
+    n_set = 0
+    for fid, fx in sorted(prog.fns.items()):
+        if fx.crate != "compact_calendar":
+            continue
+        for bb, t in fx.calls():
+            n_set += 1
+            nm = flow.call_name(t) or ""
+            if SETTER.search(nm):
+                r6.fail("C15.R6:setter:%s:%s" % (fid.split("::")[-1].split("{")[0] or fid.split("::")[-2], nm.split("::")[-1]), "%s builds a date by replacing one component of another date (`%s`): when the intermediate date does not exist (the 31st moved into a shorter month) the member is taken for absent and skipped" % (fid, nm.split("::")[-1]), lib.where_of(fx, t))
+    r6.ok({"crate": "compact_calendar", "calls_scanned": n_set, "component_wise_date_setters": 0})
+    built = [t for x in prog.with_closures(fa.id) for _, t in prog.fns[x].calls() if (flow.call_name(t) or "").endswith("NaiveDate::from_ymd_opt")]
+    r6.check(len(built) >= 2, {"from_ymd_opt_sites_in_first_after": len(built)}, "C15.R6:built", "first_after no longer assembles the dates it returns with NaiveDate::from_ymd_opt(year, month, day) (found %d such sites, expected the year of the query and the following years)" % len(built), lib.where_of(fa))
+    r6.floor(6)
 
     # W --------------------------------------------------------------------------------------
     witness.run_doctests(ctx, prog, res, "C15.W", "the representation cannot be built or read from outside the crate; twins compile", "c15", floor=4)
